@@ -68,7 +68,8 @@ CHECKS = {
     "C17": dict(
         level="proof",
         campaigns=[dict(engine="metrics", n=n(250, 5000)), TCP_CAMP],
-        trusted_base=["model Model/TunnelTime.lean (activeClients, startConnection, stopConnection, reportTunnelTime, Collect) and Model/Metrics.lean (the callers) of prometheus/metrics.go, hand-written, tied by the `metrics` campaign: real collectors on a private registry, clock stubbed through the verif hook (prometheus/verif_export.go VerifSetNow), gathered tunnel_time_seconds* compared after every scrape with the model and with independent interval arithmetic"],
+        trusted_base=["model Model/TunnelTime.lean (activeClients, startConnection, stopConnection, reportTunnelTime, Collect) and Model/Metrics.lean (the callers) of prometheus/metrics.go, hand-written, tied by the `metrics` campaign: real collectors on a private registry, clock stubbed through the verif hook (prometheus/verif_export.go VerifSetNow), gathered tunnel_time_seconds* compared after every scrape with the model and with independent interval arithmetic",
+                      "Gen/Code.lean: Lean translations of tunnelTimeMetrics.startConnection, stopConnection, reportTunnelTime, Collect regenerated from the Go source on every run by extract/golean.go (trusted translator; subset: assignments, if/else, return, range and counting loops, struct literals, maps, a fixed table of standard-library operations) over the run-time prelude Model/GoRT.lean (trusted meaning of Go maps, slices, ints, time, sync.Once, errors, effects); Proofs/Tie*.lean prove for all inputs that the translation never panics and does what the hand model does"],
         assumptions=["the clock is non-decreasing (time.Now is monotonic in Go); time is whole seconds in the model, the campaign advances the clock in whole and fractional seconds and compares floor values where the code truncates",
                      "stops are matched with starts: C15 (authenticated iff authentication succeeded, closed once) and C16 (added once, removed once)"],
     ),
@@ -110,7 +111,8 @@ CHECKS = {
         level="proof",
         campaigns=[dict(engine="natconn", n=n(2000, 40000)), dict(engine="udp", n=n(100, 2000), netns=True),
                    dict(engine="natlife", n=n(16, 300), netns=True, args={"life": 1})],
-        trusted_base=UDP_TB + ["model Model/NatConn.lean of natconn.onWrite/onRead tied by the `natconn` campaign through the verif hook service/verif_export.go"],
+        trusted_base=UDP_TB + ["model Model/NatConn.lean of natconn.onWrite/onRead tied by the `natconn` campaign through the verif hook service/verif_export.go",
+                               "Gen/Code.lean: Lean translations of natconn.onWrite, natconn.onRead regenerated from the Go source on every run by extract/golean.go (trusted translator; subset: assignments, if/else, return, range and counting loops, struct literals, maps, a fixed table of standard-library operations) over the run-time prelude Model/GoRT.lean (trusted meaning of Go maps, slices, ints, time, sync.Once, errors, effects); Proofs/Tie*.lean prove for all inputs that the translation never panics and does what the hand model does"],
         assumptions=UDP_AS + ["real-time bounds (teardown 'within bounded time', 'promptly') are observed by the campaigns, not proved: the model has a logical clock"],
     ),
     "C16": dict(
@@ -127,7 +129,8 @@ CHECKS = {
         level="proof",
         campaigns=[dict(engine="ip", n=n(100000, 5000000)), dict(engine="udp", n=n(150, 3000), netns=True), dict(engine="tcp", n=n(15, 300), netns=True)],
         trusted_base=["model Model/IP.lean of net.IP predicates (Go toolchain) and net/private_net.go, tied by the `ip` differential campaign",
-                      "Gen/PrivateNets.lean regenerated from the CIDR literals of net/private_net.go"],
+                      "Gen/PrivateNets.lean regenerated from the CIDR literals of net/private_net.go",
+                      "Gen/Code.lean: Lean translations of RequirePublicIP, IsPrivateAddress regenerated from the Go source on every run by extract/golean.go (trusted translator; subset: assignments, if/else, return, range and counting loops, struct literals, maps, a fixed table of standard-library operations) over the run-time prelude Model/GoRT.lean (trusted meaning of Go maps, slices, ints, time, sync.Once, errors, effects); Proofs/Tie*.lean prove for all inputs that the translation never panics and does what the hand model does"],
         assumptions=["hostname resolution is an oracle (cannot be exercised offline): the theorems quantify over every resolver answer",
                      "net.Dialer calls Control with the literal address of every connection attempt (Go runtime contract)"],
     ),
@@ -136,6 +139,7 @@ CHECKS = {
         campaigns=[dict(engine="replay", n=n(1500, 30000), args={"ops": 200}), dict(engine="tcpauth", n=n(400, 8000)),
                    dict(engine="conc", n=n(15, 300)), dict(engine="config", n=n(8, 150), netns=True)],
         trusted_base=["model Model/Replay.lean of service/replay.go tied by the `replay` differential campaign",
+                      "Gen/Code.lean: Lean translations of preHash, ReplayCache.Add, ReplayCache.Resize, NewReplayCache regenerated from the Go source on every run by extract/golean.go (trusted translator; subset: assignments, if/else, return, range and counting loops, struct literals, maps, a fixed table of standard-library operations) over the run-time prelude Model/GoRT.lean (trusted meaning of Go maps, slices, ints, time, sync.Once, errors, effects); Proofs/Tie*.lean prove for all inputs that the translation never panics and does what the hand model does",
                       "Gen/Consts.lean (MaxCapacity) regenerated from source"],
         assumptions=["ReplayCache.Add/Resize are each one critical section (C19 lock-set facts)",
                      "a handshake is identified by (key id, salt); the 32-bit XOR-fold checksum is what is remembered"],
